@@ -39,6 +39,8 @@ type vE2ESpec struct {
 	// Positive decides which application-scan probes (recording scanner) detect a service
 	Positive func(ip string, port uint16) bool
 	ProbeErr func(ip string, port uint16) error
+	// ProbeDelay makes an application-scan probe last that long on the virtual clock (cut short by cancellation)
+	ProbeDelay func(ip string, port uint16, nth int) time.Duration
 }
 
 type vProbe struct {
@@ -236,7 +238,11 @@ func (s *vRecScanner) Scan(ctx context.Context, r *scan.Request) (scan.Result, e
 	}
 	var pos bool
 	var err error
+	var delay time.Duration
 	vs.Visible("probe", func() {
+		if run.Spec.ProbeDelay != nil {
+			delay = run.Spec.ProbeDelay(ip, r.DstPort, len(run.Probes))
+		}
 		run.Probes = append(run.Probes, vProbe{T: vs.VNow(), Kind: s.kind, IP: ip, Port: r.DstPort, Thread: vs.CurThread()})
 		vs.Observe("probe", "%s:%d", ip, r.DstPort)
 		if run.Spec.ProbeErr != nil {
@@ -246,6 +252,12 @@ func (s *vRecScanner) Scan(ctx context.Context, r *scan.Request) (scan.Result, e
 			pos = run.Spec.Positive(ip, r.DstPort)
 		}
 	})
+	if delay > 0 {
+		select {
+		case <-ctx.Done():
+		case <-time.After(delay):
+		}
+	}
 	if err != nil {
 		return nil, err
 	}
